@@ -1,7 +1,7 @@
 #!/bin/bash
 # usage: keep_seed.sh <id> <confirm-line> <check-result-summary>
 id="$1"; confirm="$2"; result="$3"
-src=/tmp/mut/out/$id; dst=/verif/seeded/$id
+src=${SEEDSRC:-/tmp/mut/out}/$id; dst=/verif/seeded/$id
 mkdir -p "$dst" && cp "$src"/patch.diff "$src"/*_test.go "$src"/DEMO_PATH.txt "$dst"/ 2>/dev/null
 python3 - "$src/meta.json" "$dst/meta.json" "$confirm" "$result" <<'PY'
 import json,sys
